@@ -35,9 +35,9 @@ FLOOR = {
 
 
 def plan(tier, seed):
-    n = 40 if tier == "quick" else 6400
+    n = 80 if tier == "quick" else 6400
     return [{"kind": "block", "block": b, "n": 60, "seed": seed} for b in range(n)] + [
-        {"kind": "rg", "block": b, "seed": seed} for b in range(2 if tier == "quick" else 192)
+        {"kind": "rg", "block": b, "seed": seed} for b in range(4 if tier == "quick" else 192)
     ]
 
 
